@@ -155,7 +155,8 @@ Proof. exact (unreachable_raises apply_eq pick r0 r c x src dst sd dd). Qed.
     iff its reference chain reaches [u], and then as the new definition says.
     PROVED (partial): (a) the overlay writes the new definition under the canonical name, symbol
     and aliases of [u] and nothing else; (b) the frame half for arbitrary registries: every
-    container whose expansion never consults a spelling of [u] keeps root units and factor —
+    container whose expansion never reads a spelling of [u] in the unit table (the string itself,
+    the unit of its first candidate, the composed name prefix+unit) keeps root units and factor —
     first relative to any set [K] of affected spellings, then for [redefine] itself, with
     decidable hypotheses checked on a concrete registry below.  MISSING: the closed form of the
     change for the units that do reach [u] (shown on the concrete registry only: yard 36 -> 30),
